@@ -24,7 +24,7 @@ def gen_tasks(tier, seed, kind="lae"):
     cls_d = "kLeastAbsErrors" if kind == "lae" else "kMinPathError"
     cls_c = cls_d + "Cycles"
     tasks = []
-    for name, es in I.dag_graphs(tier, rng, quick_n=8, thorough_n5=40):
+    for name, es in I.dag_graphs(tier, rng, quick_n=8, thorough_n5=60):
         G = nx.DiGraph(es)
         routes = F.dag_routes(G)
         inner = [v for v in G.nodes() if G.in_degree(v) > 0 and G.out_degree(v) > 0]
@@ -75,7 +75,7 @@ def gen_tasks(tier, seed, kind="lae"):
                                   "kwargs": {"k": kk, "weight_type": "int", "path_length_ranges": [[0, 3], [4, 50]], "path_length_factors": [fac, 1]}})
                 tasks.append({**base, "edges": arb, "plf": {"ranges": [[0, 3], [4, 50]], "factors": [1, 2]},
                               "kwargs": {"k": kk, "weight_type": "int", "path_length_ranges": [[0, 3], [4, 50]], "path_length_factors": [1, 2]}})
-    for name, es in I.digraphs(tier, rng, quick_n=8, thorough_n=50):
+    for name, es in I.digraphs(tier, rng, quick_n=8, thorough_n=80):
         G = nx.DiGraph(es)
         arbw = I.arbitrary_weights(es, rng, (0, 1, 2, 3))
         arb = I.with_flow(es, arbw)
